@@ -23,10 +23,13 @@ instance : Monad P where
 def P.fail {α} : P α := fun _ => none
 
 def pI (k : Nat) : P Int := readI k
-def pI8 := pI 1
-def pI16 := pI 2
-def pI32 := pI 4
-def pI64 := pI 8
+abbrev pI8 := pI 1
+abbrev pI16 := pI 2
+abbrev pI32 := pI 4
+abbrev pI64 := pI 8
+
+/-- exactly `n` bytes -/
+def pTake (n : Nat) : P Bytes := readN n
 
 /-- nullable string: length −1 is null; any other negative length is malformed -/
 def pNStr : P (Option Bytes) := fun bs =>
@@ -148,7 +151,7 @@ def pProduce : P ReqBody := do
       let p ← pI32
       let sz ← pI32
       if sz < 0 then P.fail else
-      let ms ← (readN sz.toNat : P Bytes)
+      let ms ← pTake sz.toNat
       pure (p, ms))
     pure (t, ps))
   pure (.produce acks to ts)
